@@ -34,9 +34,18 @@ func vInstallSetup(L int, withCR bool) *vInstallCase {
 	if r.snaps.index > 0 {
 		vPublishSnapshot(r, r.snaps.index, r.snaps.term, cfg, 10)
 	}
+	// the node may also hold a newer, not yet committed configuration entry (e.g. from a leader that has since been
+	// deposed) at some index above its commit index
+	if vBool("pendingConfig") {
+		lc := vStableConfig("lcfg", 2, vU64("lcfg.index"), 1)
+		vAssume(lc.Index > r.commitIndex && lc.Index <= r.lastLogIndex)
+		r.configs.Latest = lc
+	}
+	rcfg := vStableConfig("rcfg", 2, vU64("rcfg.index"), 1)
 	req := &installSnapReq{req: req{vU64("req.term"), vU64("req.src")},
 		lastIndex: vU64("req.lastIndex"), lastTerm: vU64("req.lastTerm"),
-		lastConfig: vStableConfig("rcfg", 2, 1, 1), size: vI64("req.size")}
+		lastConfig: rcfg, size: vI64("req.size")}
+	vAssume(rcfg.Index >= 1 && rcfg.Index <= req.lastIndex)
 	vAssume(req.src != 0 && req.src != r.nid)
 	vAssume(req.size >= 0 && req.size < 1<<40)
 	vAssume(req.lastIndex >= 1 && req.lastIndex < 1<<41 && req.lastTerm >= 1 && req.lastTerm <= req.term)
@@ -54,9 +63,14 @@ func vInstallSetup(L int, withCR bool) *vInstallCase {
 	return &vInstallCase{r: r, a: a, req: req, conn: c}
 }
 
-//verif:check C19,C09,C04,C03 stubs=env,valuefile,abslog,snapfs reach=success,kept,reset,rejected,end desc="onInstallSnapRequest under the request preconditions CR/LC: the log suffix is kept only if the entry at the snapshot index has the snapshot's term, otherwise the log is reset and the FSM restored; term, commit index, applied index, snapshot index never decrease; applied <= commit <= last; first-1 <= snapshot <= last; on success the published label is the request's" bounds="follower log of 2 entries after a symbolic base, 0..1 segment boundary, 2-node configurations; all 64-bit values"
-func VH_C19_install() {
-	c := vInstallSetup(2, true)
+//verif:check C19,C09,C04,C03,C12 stubs=env,valuefile,abslog,snapfs reach=success,kept,reset,rejected,end desc="onInstallSnapRequest under the request preconditions CR/LC: the log suffix is kept only if the entry at the snapshot index has the snapshot's term, otherwise the log is reset and the FSM restored; term, commit index, applied index, snapshot index never decrease; applied <= commit <= last; first-1 <= snapshot <= last; on success the published label is the request's" bounds="follower log of 1 entry after a symbolic base, 2-node configurations, optional pending configuration entry; all 64-bit values"
+func VH_C19_install() { vInstall(1) }
+
+//verif:check C19,C09 tier=thorough stubs=env,valuefile,abslog,snapfs reach=success,kept,reset,rejected,end desc="as VH_C19_install with a longer log and a segment boundary" bounds="follower log of 2 entries, 0..1 segment boundary"
+func VH_C19_install_L2() { vInstall(2) }
+
+func vInstall(L int) {
+	c := vInstallSetup(L, true)
 	r, a, req := c.r, c.a, c.req
 	t0, c0, f0, s0 := r.term, r.commitIndex, r.fsm.index, r.snaps.index
 	// did the log hold the snapshot's last entry (same index, same term) before the request?
@@ -74,6 +88,11 @@ func VH_C19_install() {
 	switch res {
 	case success:
 		vReach("success")
+		if req.lastIndex <= s0 {
+			// not newer than what the node has: acknowledged and ignored (under CR this is lastIndex == old snapshot index)
+			vAssert(r.snaps.index == s0 && a.nReset == 0 && a.nRemoveLTE == 0 && r.commitIndex == c0, "stale-snapshot-changes-nothing")
+			break
+		}
 		vAssert(r.snaps.index == req.lastIndex && r.snaps.term == req.lastTerm, "label-is-the-requests")
 		if a.nReset > 0 {
 			vReach("reset")
@@ -81,6 +100,7 @@ func VH_C19_install() {
 			vAssert(vNot(hadMatch), "A4-log-discarded-only-if-no-matching-entry")
 			vAssert(r.commitIndex == req.lastIndex && r.fsm.index == req.lastIndex, "A4-state-restored-from-snapshot")
 			vAssert(r.configs.Latest.Index == req.lastConfig.Index && r.configs.IsCommitted(), "A4-config-from-label")
+			vAssert(r.configs.Latest.Nodes[1].Voter == req.lastConfig.Nodes[1].Voter && r.configs.Latest.Nodes[2].Voter == req.lastConfig.Nodes[2].Voter, "A4-membership-is-the-labels")
 		} else {
 			vReach("kept")
 			// suffix kept: only because the entry at the snapshot index matched
@@ -101,9 +121,9 @@ func VH_C19_install() {
 	vReach("end")
 }
 
-//verif:check C19,C09 stubs=env,valuefile,abslog,snapfs reach=success,stale-snapshot,end desc="a stale install-snapshot request of the current term - delivered late, e.g. from an old connection of the same leader: its snapshot is at or below what this node already has - must not take the node backwards: snapshot index, commit index and applied index never decrease and the status relations keep holding" bounds="follower log of 2 entries after a symbolic base, request with lastIndex anywhere at or below the commit index, consistent with the follower's log (same leader, same history)"
+//verif:check C19,C09 stubs=env,valuefile,abslog,snapfs reach=success,stale-snapshot,end desc="a stale install-snapshot request of the current term - delivered late, e.g. from an old connection of the same leader: its snapshot is at or below what this node already has - must not take the node backwards: snapshot index, commit index and applied index never decrease and the status relations keep holding" bounds="follower log of 1..2 entries after a symbolic base, request with lastIndex anywhere at or below the commit index, consistent with the follower's log (same leader, same history)"
 func VH_C19_install_stale() {
-	c := vInstallSetup(2, false)
+	c := vInstallSetup(1+vChoice(2), false)
 	r, a, req := c.r, c.a, c.req
 	// the request comes from the legitimate leader of the current or a newer term, but it is old: it describes a snapshot
 	// of a prefix this node has already committed (so wherever the node still has that position, it agrees)
